@@ -15,6 +15,7 @@ import (
 	"sync"
 	"time"
 
+	"github.com/stackus/goht"
 	"github.com/stackus/goht/compiler"
 )
 
@@ -151,6 +152,127 @@ func doDiagnose(in []byte) string {
 	}
 }
 
+type objBoth struct{ id, cls string }
+
+func (o objBoth) ObjectID() string    { return o.id }
+func (o objBoth) ObjectClass() string { return o.cls }
+
+type objID struct{ id string }
+
+func (o objID) ObjectID() string { return o.id }
+
+type objCls struct{ cls string }
+
+func (o objCls) ObjectClass() string { return o.cls }
+
+func dh(s string) string { b, _ := hex.DecodeString(strings.TrimPrefix(s, "_")); return string(b) }
+
+func parseVal(a string) any {
+	kind, rest, _ := strings.Cut(a, ":")
+	items := []string{}
+	if rest != "" {
+		items = strings.Split(rest, ",")
+	}
+	switch kind {
+	case "S":
+		return dh(rest)
+	case "L":
+		l := []string{}
+		for _, it := range items {
+			l = append(l, dh(it))
+		}
+		return l
+	case "LN":
+		return []string(nil)
+	case "B":
+		m := map[string]bool{}
+		for _, it := range items {
+			k, v, _ := strings.Cut(it, "=")
+			m[dh(k)] = v == "1"
+		}
+		return m
+	case "BN":
+		return map[string]bool(nil)
+	case "M":
+		m := map[string]string{}
+		for _, it := range items {
+			k, v, _ := strings.Cut(it, "=")
+			m[dh(k)] = dh(v)
+		}
+		return m
+	case "MN":
+		return map[string]string(nil)
+	case "X":
+		switch rest {
+		case "int":
+			return 7
+		case "nil":
+			return nil
+		case "bytes":
+			return []byte("x")
+		case "mapany":
+			return map[string]any{"a": 1}
+		case "strptr":
+			s := "p"
+			return &s
+		case "float":
+			return 1.5
+		}
+	}
+	return struct{}{}
+}
+
+// doHelper: H class|attr <val>... ; H oid|ocls <kind> <idhex> <clshex> [<prefixhex>]
+func doHelper(f []string) (out string) {
+	defer func() {
+		if r := recover(); r != nil {
+			out = "panic"
+		}
+	}()
+	if len(f) == 0 {
+		return "BAD"
+	}
+	switch f[0] {
+	case "class", "attr":
+		var args []any
+		for _, a := range f[1:] {
+			args = append(args, parseVal(a))
+		}
+		var s string
+		var err error
+		if f[0] == "class" {
+			s, err = goht.BuildClassList(args...)
+		} else {
+			s, err = goht.BuildAttributeList(args...)
+		}
+		if err != nil {
+			return "err"
+		}
+		return "ok " + hex.EncodeToString([]byte(s))
+	case "oid", "ocls":
+		var o any
+		switch f[1] {
+		case "both":
+			o = objBoth{dh(f[2]), dh(f[3])}
+		case "id":
+			o = objID{dh(f[2])}
+		case "cls":
+			o = objCls{dh(f[3])}
+		default:
+			o = 5
+		}
+		var pfx []string
+		if len(f) > 4 {
+			pfx = []string{dh(f[4])}
+		}
+		if f[0] == "oid" {
+			return "ok " + hex.EncodeToString([]byte(goht.ObjectID(o, pfx...)))
+		}
+		return "ok " + hex.EncodeToString([]byte(goht.ObjectClass(o, pfx...)))
+	}
+	return "BAD"
+}
+
 func main() {
 	rd := bufio.NewReaderSize(os.Stdin, 1<<24)
 	w := bufio.NewWriter(os.Stdout)
@@ -173,6 +295,8 @@ func main() {
 			fmt.Fprintln(w, doCompile(arg))
 		case f[0] == "D":
 			fmt.Fprintln(w, doDiagnose(arg))
+		case f[0] == "H":
+			fmt.Fprintln(w, doHelper(f[1:]))
 		default:
 			fmt.Fprintln(w, "BAD")
 		}
